@@ -1,7 +1,8 @@
 import Drand.Chain.MemStack
 import Gen.DKGTable
 import Drand.Driver.Store
-namespace Drand.Driver
+namespace Drand.Driver.ChainD
+open Drand.Driver.StoreD
 open Drand Drand.Store Drand.Chain
 
 inductive AnyStack where
@@ -78,4 +79,4 @@ def chainInit (backend : String) : Option Nat × AnyStack :=
     (some c, .ring (MemStack.init true c []) [])
   else (none, .map (Stack.init true []) [])
 
-end Drand.Driver
+end Drand.Driver.ChainD
